@@ -107,3 +107,48 @@ def minmax_empty_domain(job: dict, cres: dict, v: dict) -> bool:
         if not emitted - set(present):
             return False
     return True
+
+
+@matcher("sumchains_none_symbol")
+def sumchains_none_symbol(job: dict, cres: dict, v: dict) -> bool:
+    """the culprit stage replaced an atom with an anonymous group argument and emitted the symbol `none` for it"""
+    removed, added = removed_added(v)
+    anon = any(re.search(r"[(,]_[,)]", s) for s in removed)
+    none = any(re.search(r"[(,]none[,)]", s) for s in added)
+    return anon and none
+
+
+@matcher("sum_head_tuple_not_identifying")
+def sum_head_tuple_not_identifying(job: dict, cres: dict, v: dict) -> bool:
+    """the source defines a predicate by a `#sum { w : atom : cond } <= 1` head aggregate whose tuple does not contain
+    the local variables of the atom (so the bound does not limit the number of atoms)"""
+    from clingo.ast import ASTType  # pylint: disable=import-outside-toplevel
+
+    from vt.common import parse  # pylint: disable=import-outside-toplevel
+
+    def variables(node) -> set:
+        out: set = set()
+
+        def rec(n):
+            if hasattr(n, "ast_type"):
+                if n.ast_type == ASTType.Variable:
+                    out.add(n.name)
+                for key in n.child_keys:
+                    rec(getattr(n, key))
+            elif isinstance(n, (list, tuple)) or (hasattr(n, "__iter__") and not isinstance(n, str)):
+                for x in n:
+                    rec(x)
+
+        rec(node)
+        return out
+
+    for stm in parse(job["prog"]):
+        if stm.ast_type != ASTType.Rule or stm.head.ast_type != ASTType.HeadAggregate:
+            continue
+        body_vars = variables(list(stm.body))
+        for elem in stm.head.elements:
+            local = variables(elem.condition.literal) - body_vars
+            tup = variables(list(elem.terms[1:]))
+            if local and not local <= tup:
+                return True
+    return False
